@@ -189,3 +189,179 @@ def classify_and_judge(db, funcs, rep, rule="R-LOOP"):
                       line=lp.line)
     rep.extra.setdefault("loop_forms", {}).update(forms)
     return n
+
+
+# ---------------------------------------------------------------------------
+# skippable equality exit
+# ---------------------------------------------------------------------------
+def _writes_to(node, name):
+    """list of (kind, const) updates of local `name` inside node."""
+    out = []
+    for n in node.walk():
+        if n.k == "UnaryOperator" and n.op in ("++", "--") and _root(n.c[0]) == name and strip_casts(n.c[0]).k == "DeclRefExpr":
+            out.append((n.op, 1))
+        elif n.k in ("BinaryOperator", "CompoundAssignOperator") and n.op in ASSIGN_OPS:
+            l = strip_casts(n.c[0])
+            if l is not None and l.k == "DeclRefExpr" and l.name == name:
+                out.append((n.op, strip_casts(n.c[1]).v))
+    return out
+
+
+def _initial_value(func, loop, name, init):
+    """constant the local holds when the loop is entered (or None)."""
+    if init is not None:
+        for op, v in _writes_to(init, name):
+            if op == "=":
+                return v
+        for n in init.walk():
+            if n.k == "VarDecl" and n.name == name and n.c:
+                return strip_casts(n.c[0]).v
+    # last assignment / initialiser before the loop in the same compound
+    val = None
+    for n in func.walk():
+        if n is loop:
+            break
+        if n.k == "VarDecl" and n.name == name and n.c and n.c[0] is not None:
+            val = strip_casts(n.c[0]).v
+        elif n.k == "BinaryOperator" and n.op == "=":
+            l = strip_casts(n.c[0])
+            if l is not None and l.k == "DeclRefExpr" and l.name == name:
+                val = strip_casts(n.c[1]).v
+    return val
+
+
+def _monotone(updates):
+    """all updates strictly increase a positive value"""
+    if not updates:
+        return None
+    kinds = set()
+    for op, v in updates:
+        if op == "++":
+            kinds.add(("+", 1))
+        elif op == "+=" and v and v > 0:
+            kinds.add(("+", v))
+        elif op == "*=" and v and v > 1:
+            kinds.add(("*", v))
+        elif op == "<<=" and v and v > 0:
+            kinds.add(("*", 1 << v))
+        else:
+            return None
+    return kinds.pop() if len(kinds) == 1 else None
+
+
+def equality_exit(db, func, loop, vs):
+    """None if the pattern does not apply; else dict describing the verdict."""
+    init, cond, inc, body = loop_parts(loop)
+    # 1. header that cannot turn false without overflow
+    if cond is not None and not (cond.v is not None and cond.v != 0):
+        c = strip_casts(cond)
+        if c.k == "BinaryOperator" and c.op == "!=" and strip_casts(c.c[1]).v == 0:
+            c = strip_casts(c.c[0])
+        if c.k != "DeclRefExpr" or c.get("dk") != "local":
+            return None
+        hv = c.name
+        i0 = _initial_value(func, loop, hv, init)
+        ups = []
+        for part in (inc, body):
+            if part is not None:
+                ups += _writes_to(part, hv)
+        mono = _monotone(ups)
+        if i0 is None or i0 <= 0 or mono is None:
+            return None
+    # 2. every exit is guarded by an equality with a monotone local
+    exits = []
+    st = [(body, 0, None)]
+    guards = []
+    while st:
+        x, depth, guard = st.pop()
+        if x is None:
+            continue
+        if x.k in ("ReturnStmt", "GotoStmt") or (x.k == "BreakStmt" and depth == 0) or \
+                (x.k == "CallExpr" and (x.get("noreturn") or x.name in ("abort", "exit"))):
+            exits.append((x, guard))
+            continue
+        if x.k == "IfStmt":
+            st.append((x.c[0], depth, guard))
+            st.append((x.c[1], depth, x.c[0]))
+            if len(x.c) > 2 and x.c[2] is not None:
+                st.append((x.c[2], depth, ("not", x.c[0])))
+            continue
+        d2 = depth + 1 if x.k in LOOPS + ("SwitchStmt",) else depth
+        for ch in x.kids():
+            st.append((ch, d2, guard))
+    if not exits:
+        return None
+    seqs = []
+    for ex, guard in exits:
+        if guard is None or isinstance(guard, tuple):
+            return None
+        g = strip_casts(guard)
+        if g.k != "BinaryOperator" or g.op != "==":
+            return None
+        l, r = strip_casts(g.c[0]), strip_casts(g.c[1])
+        S, E = (r, l) if (r.k == "DeclRefExpr" and r.get("dk") == "local") else (l, r)
+        if S.k != "DeclRefExpr" or S.get("dk") != "local":
+            return None
+        ups = []
+        for part in (inc, body):
+            if part is not None:
+                ups += _writes_to(part, S.name)
+        mono = _monotone(ups)
+        s0 = _initial_value(func, loop, S.name, init)
+        if mono is None or s0 is None or s0 <= 0:
+            return None
+        # E loop-invariant: nothing it reads is written, no calls
+        roots, exact = cond_roots(db, func, E)
+        if any(n.k == "CallExpr" for n in E.walk()):
+            return None
+        for part in (inc, body):
+            if part is not None and roots and may_modify(part, roots):
+                return None
+        seqs.append((E, S.name, s0, mono))
+    # 3. feasible values of E must all be hit by the sequence
+    res = {"exits": len(exits), "undecided": [], "missed": []}
+    for E, sname, s0, (kind, k) in seqs:
+        vals = vs.eval(func, E)
+        if vals is None:
+            res["undecided"].append(unparse(E))
+            continue
+        seq = set()
+        v = s0
+        while v < (1 << 31) and len(seq) < 4096:
+            seq.add(v)
+            v = v * k if kind == "*" else v + k
+        miss = sorted(x for x in vals if x not in seq)
+        if miss:
+            res["missed"].append((unparse(E), sname, s0, "%s%d" % (kind, k), miss, sorted(vals)))
+    return res
+
+
+def judge_equality_exits(db, funcs, rep, rule="R-LOOP-EQ"):
+    from valueset import ValueSets
+    vs = ValueSets(db)
+    n = 0
+    for f in funcs:
+        if f.body is None:
+            continue
+        k = 0
+        for lp in f.walk():
+            if lp.k not in LOOPS:
+                continue
+            k += 1
+            r = equality_exit(db, f, lp, vs)
+            if r is None:
+                continue
+            n += 1
+            inst = "loop#%d:equality-exit" % k
+            if r["missed"]:
+                E, s, s0, step, miss, vals = r["missed"][0]
+                rep.violation(rule, where(f), inst,
+                              "skippable equality exit: the loop header cannot become false without overflow and its only exit is `%s == %s` "
+                              "with %s = %d, %s...; feasible values %s of `%s` are never met: %s" %
+                              (E, s, s, s0, step, vals, E, miss), line=lp.line)
+            elif r["undecided"]:
+                rep.info("%s: %s %s: equality-exit loop whose operand value set could not be computed (%s) — not judged" %
+                         (rule, where(f), inst, r["undecided"]))
+            else:
+                rep.ok(rule, where(f), inst, "every feasible value of the compared expression is met by the monotone sequence")
+    return n
